@@ -422,6 +422,32 @@ theorem rows_of_cap (ps : List Oov.Provider) (lex : List Oov.Word) (buf : Oov.Bu
   obtain ⟨c1, c2, c3⟩ := (Oov.stepAt_ok ps lex buf p new hwf hnew).2 x hx
   exact ⟨c1, by omega, by omega⟩
 
+/-- every row holds at most `rowCap · |text|` candidates (texts of at most 65535 characters, where the `as u16` casts of
+`toVit` are the identity) -/
+theorem rows_le_cap_mul (ps : List Oov.Provider) (lex : List Oov.Word) (buf : Oov.Buf) (hwf : buf.WF)
+    (hn : buf.chars.length ≤ 65535) (nodes : List Oov.Node)
+    (h : Oov.buildLattice ps lex buf = .ok nodes) (e : Nat) :
+    (nodes.map toVit).countP (fun n => n.e == e) ≤ rowCap ps lex * buf.chars.length := by
+  have hin := buildLattice_cand ps lex buf (wf_bufOk buf hwf) nodes h
+  refine Nat.le_trans (countP_toVit nodes (fun x hx => by have := (hin x hx).2; omega) e) ?_
+  refine buildLattice_rows ps lex buf (rowCap ps lex) buf.chars.length ?_ nodes h e
+  intro p new hnew
+  refine ⟨stepAt_cap ps lex buf p new hnew, fun x hx => ?_⟩
+  obtain ⟨c1, c2, c3⟩ := (Oov.stepAt_ok ps lex buf p new hwf hnew).2 x hx
+  exact ⟨c1, by omega, by omega⟩
+
+/-- **`hrowsz` for the `u32` row index (the tree since 9fb3dd8), from the configuration ALONE**: a text the length guards admit
+has at most 65535 characters, so `rowCap ≤ 65537` keeps every row below 2^32 entries (65537 · 65535 = 2^32 - 1) — no
+condition on the text is left.  (With the `u16` index of the pinned tree the condition was `rowCap · |text| ≤ 65535`, which a
+16 KiB text violates for a grouped class with four `unk.def` lines: `C03.row_size_grows_with_run_counterexample`.) -/
+theorem rows_of_cap_u32 (ps : List Oov.Provider) (lex : List Oov.Word) (buf : Oov.Buf) (hwf : buf.WF)
+    (hn : buf.chars.length ≤ 65535) (hcap : rowCap ps lex ≤ 65537) (nodes : List Oov.Node)
+    (h : Oov.buildLattice ps lex buf = .ok nodes) (e : Nat) :
+    (nodes.map toVit).countP (fun n => n.e == e) ≤ 4294967295 := by
+  refine Nat.le_trans (rows_le_cap_mul ps lex buf hwf hn nodes h e) ?_
+  calc rowCap ps lex * buf.chars.length ≤ 65537 * 65535 := Nat.mul_le_mul hcap hn
+    _ = 4294967295 := by decide
+
 /-! ## (e) the chain lattice in closed form: the exact overflow threshold of the `i32` accumulator -/
 
 /-- `n` one-character words `i..i+1`, connection ids 0, all of cost `c` (the lattice of the text `1`×n over the D7
@@ -463,7 +489,7 @@ theorem chain_insert (k c : Int) (n j : Nat) (hj : j < n) (hn : n ≤ 65535) (ro
       rw [Int.add_mul, Int.one_mul]; omega
     rw [this, if_pos ⟨by omega, by omega⟩]
   have hc : connectNode addI32 I32_MAX (fun _ _ => k) [ent] ⟨j, j + 1, 0, 0, c⟩
-      = some (((j : Int) + 1) * (k + c), asU16 j, asU16 0) := by
+      = some (((j : Int) + 1) * (k + c), asU16 j, asU32 0) := by
     unfold connectNode
     simp only [connGo]
     rw [if_neg (by rw [htot]; unfold I32_MAX; exact s5), e1]
@@ -471,12 +497,12 @@ theorem chain_insert (k c : Int) (n j : Nat) (hj : j < n) (hn : n ≤ 65535) (ro
     rw [e2]
     simp only []
     rw [if_pos (by unfold I32_MAX; exact s4)]
-  refine ⟨rows.setIfInBounds (j + 1) ([] ++ [⟨⟨j, j + 1, 0, 0, c⟩, ((j : Int) + 1) * (k + c), asU16 j, asU16 0⟩]),
-    ⟨⟨j, j + 1, 0, 0, c⟩, ((j : Int) + 1) * (k + c), asU16 j, asU16 0⟩, ?_, ?_⟩
+  refine ⟨rows.setIfInBounds (j + 1) ([] ++ [⟨⟨j, j + 1, 0, 0, c⟩, ((j : Int) + 1) * (k + c), asU16 j, asU32 0⟩]),
+    ⟨⟨j, j + 1, 0, 0, c⟩, ((j : Int) + 1) * (k + c), asU16 j, asU32 0⟩, ?_, ?_⟩
   · unfold insert
     simp only [hrow, hc, hrow1]
   · refine ⟨by rw [Array.size_setIfInBounds]; exact hsz,
-      ⟨⟨⟨j, j + 1, 0, 0, c⟩, ((j : Int) + 1) * (k + c), asU16 j, asU16 0⟩, ?_, by rw [Int.natCast_add]; rfl⟩, ?_⟩
+      ⟨⟨⟨j, j + 1, 0, 0, c⟩, ((j : Int) + 1) * (k + c), asU16 j, asU32 0⟩, ?_, by rw [Int.natCast_add]; rfl⟩, ?_⟩
     · rw [Array.getElem?_setIfInBounds, if_pos rfl, if_pos (by omega)]; rfl
     · intro i h1 h2
       rw [Array.getElem?_setIfInBounds, if_neg (by omega)]
@@ -529,7 +555,7 @@ theorem chain_eos (k : Int) (n : Nat) (hn : n ≤ 65535) (rows : Rows) (ent : En
     unfold connectEos eosNode
     simp only [hid, hrow, connectNode, connGo, if_neg hne, h, h0, if_pos hx]
     rw [if_neg (by omega)]
-    simp [asU16]
+    simp [asU16, asU32]
 
 /-- a chain whose steps all stay inside `i32` but whose `connect_eos` addition does not: `attempt to add with overflow`
 (stated for a variable length so that nothing of the size of the text is ever evaluated) -/
